@@ -192,7 +192,10 @@ func (m *SlidingWindowMetric) MaxConcurrency() int32 {
 }
 
 func (m *SlidingWindowMetric) AvgRT() float64 {
-	return float64(m.GetSum(base.MetricEventRt)) / float64(m.GetSum(base.MetricEventComplete))
+	// One clock reading for both sums: with two, a bucket boundary crossed in between divides the
+	// response time of one window by the completions of another.
+	satisfiedBuckets := m.getSatisfiedBuckets(util.CurrentTimeMillis())
+	return float64(m.count(base.MetricEventRt, satisfiedBuckets)) / float64(m.count(base.MetricEventComplete, satisfiedBuckets))
 }
 
 // SecondMetricsOnCondition aggregates metric items by second on condition that
